@@ -21,7 +21,7 @@ META = {
     "ploidy >= 2; each is enumerated exactly once",
     "bound": {
         "quick": "P<=5, H<=4, F in 6-value grid (+1 seed-rotated), freqs compositions of 4; assemble U<=8 haplotypes, P<=4",
-        "thorough": "P<=6, H<=5, freqs compositions of 8; assemble U<=16, P<=6",
+        "thorough": "P<=8, H<=5, freqs compositions of 8; assemble U<=16, P<=6",
     },
     "assumptions": [
         "reference = textbook multinomial / Dirichlet-multinomial pmf with alpha = f(1-F)/F, written with rising factorials",
@@ -63,7 +63,7 @@ def warm(tier):
 
 def plan(tier, seed):
     Fs = F_GRID + [F_SEED[seed % len(F_SEED)]]
-    maxP, maxH, N = (5, 4, 4) if tier == "quick" else (6, 5, 8)
+    maxP, maxH, N = (5, 4, 4) if tier == "quick" else (8, 5, 8)
     jobs = []
     for P in range(1, maxP + 1):
         for H in range(1, maxH + 1):
